@@ -198,6 +198,17 @@ def _groups0(tier, rng):
         c.add(b"helloMAIL FROM:<s2@x>\r\nRCPT TO:<r2@x>\r\nDATA\r\nbody\r\n.\r\nMAIL FROM:<s3@x>\r\nRCPT TO:<r3@x>\r\nBDAT %d LAST\r\n" % len(run) + run + b"NOOP\r\nQUIT\r\n",
               MAIL="ok", RCPT="ok", DATA=g.ddec(ret="prop"))
         hist.append(c.case(seg="line") + "\tTAG=bait-only")
+    # what is left of a line when the peer goes away, around the limit: a cut line is the connection's failure, never a command and
+    # never "too long" unless the raw limiter has seen more than the limit (found by the thorough tier's random binary input)
+    for lim in (40, 64):
+        for n in (lim - 2, lim - 1, lim, lim + 1, lim + 2):
+            for pre in (b"", b"EHLO x\r\n"):
+                if pre and n == lim:
+                    continue    # behind a line feed the raw limiter counts that line feed: a fragment of exactly `lim` octets trips it — no
+                                # complete line of that content could be within the maximum, and the monitor judges fragments as lines
+                c = g.Conv(dict(maxline=lim))
+                c.add(pre + b"NOOP" + b"y" * (n - 4))
+                endless.append(c.case(seg="one") + "\tTAG=cmdonly")
     for lim in (40, 2000):
         for total in (lim * 3, 9000):
             c = g.Conv(dict(maxline=lim, debug=rng.choice([0, 1])))
